@@ -4,6 +4,7 @@ import QExPy.Props.C01
 #print axioms QExPy.rule_pow_const
 #print axioms QExPy.C03_diff_correct
 #print axioms QExPy.C01_value
+#print axioms QExPy.C01_statement_form
 #print axioms QExPy.C01_quadratic_form
 #print axioms QExPy.C01_error
 #print axioms QExPy.C01_partials_exact
